@@ -232,6 +232,19 @@ impl WasmDspRuntime {
 
     /// Run the `mimium_main` (or global init) function if exported.
     pub fn run_main(&mut self) -> Result<(), String> {
+        // The global initialiser has no cells in dsp's state layout. A stateful function called
+        // at global scope runs on a scratch state storage (the host grows it on demand): on the
+        // global storage it would leave its state in the first cells of dsp.
+        let dsp_state = self.engine.get_global_state_data().map(|d| d.to_vec());
+        self.engine.set_global_state_data(&[]);
+        let result = self.run_main_function();
+        if let Some(dsp_state) = dsp_state {
+            self.engine.set_global_state_data(&dsp_state);
+        }
+        result
+    }
+
+    fn run_main_function(&mut self) -> Result<(), String> {
         // Try "main" first (global initializer), then fall back to "mimium_main"
         match self.engine.execute_function("main", &[]) {
             Ok(_) => Ok(()),
